@@ -67,7 +67,7 @@ def op_lists(op, max_ops):
 eid_literal = st.sampled_from(EID_ALPH)
 # an edge-ID reference: a literal, ['#', k] = k-th existing ID, or ['+', k] = (next automatic ID) + k, i.e. a new
 # explicit integer ID at or just above the counter - the IDs an automatic ID is most likely to collide with later
-eid_ref = st.one_of(eid_literal, eid_literal, st.tuples(st.just("#"), st.integers(0, 11)).map(list), st.tuples(st.sampled_from(["+", "+", "+f"]), st.integers(0, 3)).map(list))
+eid_ref = st.one_of(eid_literal, eid_literal, st.tuples(st.just("#"), st.integers(0, 11)).map(list), st.tuples(st.sampled_from(["+", "+", "+f", "+n"]), st.integers(0, 3)).map(list))
 
 CTYPES = ["list", "tuple", "set", "frozenset", "iter"]
 
@@ -88,11 +88,15 @@ def container(ctype, xs):
 
 def resolve_eid(H, ref):
     """literal edge ID, or ['#', k] = k-th currently existing edge ID (modulo), else a literal"""
-    if isinstance(ref, list) and ref[0] in ("+", "+f"):  # '+f': the same ID as an integer-valued float
+    if isinstance(ref, list) and ref[0] in ("+", "+f", "+n"):  # '+f' / '+n': the same ID as an integer-valued float / numpy int
         try:
             v = peek_uid(H) + ref[1]
         except Exception:  # noqa: BLE001
             v = 1000 + ref[1]
+        if ref[0] == "+n":
+            import numpy as np
+
+            return np.int64(v)
         return float(v) if ref[0] == "+f" else v
     if isinstance(ref, list):
         ids = list(H._edge)
